@@ -56,6 +56,11 @@ STYLES = ["pyformat_seq", "pyformat_dict", "format", "qmark"]
 POSITIONS = ["values", "select_list", "where_eq", "where_ne", "in_list", "in_listvalue", "like", "update_set", "limit", "two_stmts", "two_strings", "two_strings"]
 PAIRS = [("ends with backslash\\", "see $region"), ("\\", "$5"), ("a\\", "x $v1 y"), ("it's", "cost $price"), ("q'", "$v1"), ("\\'", "$$x$$"),
          ("100%", "%s"), ("%s", "100%"), ("a;b", "-- c"), ("/*", "*/"), ("'", "'"), ("$v1", "ends\\"), ("x\\", "it's $5"), ("?", "??")]
+# python values that compare equal (and hash alike) but are different data
+COLLIDE = [
+    [True, 1.0, decimal.Decimal("1")], [False, 0.0, decimal.Decimal("0")], [2.5, decimal.Decimal("2.5")], [True, decimal.Decimal("1.0")],
+    [1, 1.0], [1, True], [0, False], [7, decimal.Decimal("7")], ["1", 1], ["TRUE", True],
+]
 DECOYS = ["plain", "it's", "100%", "%s", "$v1", "a;b", "--", "héllo", "", "x", "\\", "a\\'b", "line1\nline2", "?"]
 
 
@@ -77,6 +82,15 @@ def gen_cases(tier: str, seed: int):
             continue
         if x < 0.14:
             yield {"kind": "paramstyle", "first": style, "second": r.choice(STYLES)}
+            continue
+        if x < 0.18:
+            grp = r.choice(COLLIDE)
+            a, b = r.sample(grp, 2)
+            yield core.jsonable({"kind": "collide", "style": style, "first": a, "then": b, "how": r.choice(["same_stmt", "next_stmt", "other_conn"])})
+            continue
+        if x < 0.22:
+            t, v = r.choice(TYPED) if r.random() < 0.5 else ("S", _rand_string(r))
+            yield core.jsonable({"kind": "dict_reuse", "type": t, "val": v, "how": r.choice(["insert_then_lookup", "executemany_same_dict", "twice"])})
             continue
         pos = r.choice(POSITIONS)
         if pos in ("values", "update_set", "select_list") and r.random() < 0.4:
@@ -169,6 +183,10 @@ def run_case(case: dict, env: core.Env) -> None:
         return _run_executemany(case, env)
     if case["kind"] == "paramstyle":
         return _run_paramstyle(case, env)
+    if case["kind"] == "collide":
+        return _run_collide(case, env)
+    if case["kind"] == "dict_reuse":
+        return _run_dict_reuse(case, env)
     style, pos, t, v, v2 = case["style"], case["pos"], case["type"], case["val"], case["val2"]
     fs, conn, tw = _state[style]
     cur, tcur = conn.cursor(), tw.cursor()
@@ -376,6 +394,96 @@ def _run_executemany(case: dict, env: core.Env) -> None:
         env.witness(f"C08/executemany/wrong-rows/{style}", f"{dict(a)} expected {dict(want)}")
     if len(case["vals"]) >= 2:
         env.nontrivial(("em", style, case["vals"]))
+
+
+def _kind_of(v: Any) -> str:
+    if isinstance(v, bool):
+        return "bool"
+    if isinstance(v, (int, float, decimal.Decimal)):
+        return "number"
+    return type(v).__name__
+
+
+def _arrived_as(sent: Any, got: Any) -> bool:
+    """The value read back is the value sent, of the same kind of data. A bound Decimal legitimately comes back as a
+    number or as its text (the connector quotes Decimals); a bool only as a bool; a number never as a bool or text."""
+    if isinstance(sent, bool):
+        return got is sent
+    if isinstance(sent, decimal.Decimal):
+        if isinstance(got, str):
+            try:
+                return decimal.Decimal(got) == sent
+            except decimal.InvalidOperation:
+                return False
+        return not isinstance(got, bool) and isinstance(got, (int, float, decimal.Decimal)) and got == sent
+    if isinstance(sent, (int, float)):
+        return not isinstance(got, bool) and isinstance(got, (int, float, decimal.Decimal)) and float(got) == float(sent)
+    return type(got) is type(sent) and got == sent
+
+
+def _run_collide(case: dict, env: core.Env) -> None:
+    """Two values that are == in Python but different data are bound one after the other: each arrives as itself."""
+    style, a, b, how = case["style"], case["first"], case["then"], case["how"]
+    fs, conn, tw = _state[style]
+    env.count("cmp_roundtrip")
+    env.cover("collide", f"{_kind_of(a)}:{type(a).__name__}-then-{type(b).__name__}/{how}")
+    cur = conn.cursor()
+    if how == "same_stmt":
+        out = core.run_stmt(cur, f"SELECT {ph(style, 0)} AS X, {ph(style, 1)} AS Y", bind(style, [a, b]))
+        got = list(out["rows"][0]) if out["ok"] and out["rows"] else None
+    else:
+        o1 = core.run_stmt(cur, f"SELECT {ph(style, 0)} AS X", bind(style, [a]))
+        c2 = tw.cursor() if how == "other_conn" else conn.cursor()
+        out = core.run_stmt(c2, f"SELECT {ph(style, 0)} AS Y", bind(style, [b]))
+        got = [o1["rows"][0][0], out["rows"][0][0]] if o1["ok"] and out["ok"] and o1["rows"] and out["rows"] else None
+        if not o1["ok"]:
+            out = o1
+    if got is None:
+        env.witness(f"C08/rejected/{style}/select_list/{type(a).__name__}+{type(b).__name__}/{out['exc']['cls'] if out.get('exc') else 'no-row'}",
+                    f"{a!r}, {b!r}: {out.get('exc')}")
+        return
+    for sent, g, which in ((a, got[0], "first"), (b, got[1], "second")):
+        if not _arrived_as(sent, g):
+            env.witness(f"C08/value/{style}/select_list/{type(sent).__name__}-arrives-as-{type(g).__name__}/bound-{which}-of-equal-pair",
+                        f"bound {a!r} then {b!r} ({how}): read back {got!r}")
+    env.nontrivial(("collide", style, repr(a), repr(b), how))
+
+
+def _run_dict_reuse(case: dict, env: core.Env) -> None:
+    """One params dict object bound more than once: every execution binds the caller's values and leaves the dict alone."""
+    t, v, how = case["type"], case["val"], case["how"]
+    fs, conn, tw = _state["pyformat_dict"]
+    cur = conn.cursor()
+    env.count("cmp_roundtrip")
+    env.cover("dict_reuse", f"{how}/{t}")
+    cur.execute(f"CREATE OR REPLACE TABLE RT ({COLS[t]}, N INT)")
+    p = {"p0": v, "p1": 7}
+    keep = dict(p)
+    sql = f"INSERT INTO RT ({t}, N) VALUES (%(p0)s, %(p1)s)"
+    try:
+        if how == "executemany_same_dict":
+            cur.executemany(sql, [p, p, p])
+            want = [(v, 7)] * 3
+        elif how == "twice":
+            cur.execute(sql, p)
+            cur.execute(sql, p)
+            want = [(v, 7)] * 2
+        else:
+            cur.execute(sql, p)
+            want = [(v, 7)]
+            if v is not None and t not in ("F",):
+                look = cur.execute(f"SELECT N FROM RT WHERE {t} = %(p0)s AND N = %(p1)s", p).fetchall()
+                if [tuple(x) for x in look] != [(7,)]:
+                    env.witness(f"C08/dict-reuse/{how}/lookup-misses/{_vclass(v)}", f"{p!r}: look-up with the dict used for the insert -> {look}")
+        got = [tuple(x) for x in cur.execute(f"SELECT {t}, N FROM RT").fetchall()]
+    except Exception as e:  # noqa: BLE001
+        env.witness(f"C08/dict-reuse/{how}/rejected/{_vclass(v)}/{type(e).__name__}", f"{p!r}: {e}"[:400])
+        return
+    if not _rows_equal(got, want):
+        env.witness(f"C08/dict-reuse/{how}/wrong-rows/{_vclass(v)}", f"{keep!r}: table {got} expected {want}")
+    if p != keep or any(type(p[k]) is not type(keep[k]) for k in keep):
+        env.witness(f"C08/dict-reuse/{how}/callers-dict-changed", f"{keep!r} became {p!r}")
+    env.nontrivial(("dict_reuse", how, t, repr(v)))
 
 
 def _run_paramstyle(case: dict, env: core.Env) -> None:
